@@ -879,6 +879,19 @@ private:
       {
         try { c.listenerReady->set_value(false); } catch (...) {}
       }
+      // A connect()/connectViaListener() queued in the same window already
+      // returned ok(sid) to its caller. Report it like the pre-insertion failures
+      // in connectDo/viaDo — onClose for that sid, once — so the sid gets its
+      // terminal event. No Session was inserted, so no session counters change.
+      if (c.t == CmdType::Connect || c.t == CmdType::Via)
+      {
+        decltype(_cbs.onClose) closeCb;
+        { std::lock_guard<std::mutex> g(_cbMutex); closeCb = _cbs.onClose; }
+        if (closeCb)
+          closeCb(c.t == CmdType::Connect ? c.c.sid : c.v.sid,
+                  TransportErrorInfo{TransportError::ShuttingDown,
+                                     "connect: transport shutting down"});
+      }
     }
     if (_epollFd >= 0)
     {
